@@ -223,6 +223,7 @@ ClassKind(class) ==
 \* ------------------------------------------------------------------ the signing side: one event = one signature produced
 \* ev = [mode  : "det" (library derives the nonce) | "random" (library draws it) | "explicit" (caller supplied it),
 \*       key, z : identities of private key and 32-byte digest (any values with equality),
+\*       rep    : representation in which the digest was handed over ("bytes", "hex", "hex-upper", "hex-mixed"),
 \*       ht     : hash type asked for,
 \*       r, s   : the pair reported, der : DER + hash type bytes reported, raw : the 64-byte form reported,
 \*       valid  : oracle fact EcdsaOk(pub(key), z, r, s) of the reference verifier]
@@ -249,22 +250,44 @@ EventFails(ev, n) ==        \* sequence of failing clauses of a single event (em
               THEN <<Bad("raw-form", "", Pad32(ev.r) \o Pad32(ev.s))>> ELSE <<>>
     IN c1 \o c2 \o c3 \o c4 \o c5
 
-\* ledger: sigOf : (key, z) -> <<r, s>> of the first "det" signature; users : nonce id -> set of (key, z) that used it
-\*         (nonces chosen by the library only)
-LedgerInit == [sigOf |-> <<>>, users |-> <<>>]
+\* ledger: sigOf : (key, z) -> <<r, s>> of the first "det" signature for which the digest was given in a canonical
+\*         representation (bytes, lower-case hex text); altOf : (key, z, rep) -> the same for other representations of the
+\*         same digest (rep = "hex-upper", "hex-mixed": same value, other letter case);
+\*         users : nonce id -> set of (key, z) that used it (nonces chosen by the library only)
+\* ev.rep: how the caller handed the digest over.  The signature is a function of key and MESSAGE: every representation of
+\* one digest must give the one signature.
+\* Named deviation "sign-nonce-depends-on-hex-case": the deterministic nonce is derived from the hex TEXT of the digest as
+\* given, so the same digest in another letter case gets another nonce and another (valid) signature.  It covers exactly a
+\* disagreement between a case-altered representation and another representation of the same digest; two signatures for
+\* the same text must still agree.
+CanonicalRep(rep) == rep \in {"bytes", "hex"}
+LedgerInit == [sigOf |-> <<>>, altOf |-> <<>>, users |-> <<>>]
 Extend(f, x, v) == [y \in (DOMAIN f) \cup {x} |-> IF y = x THEN v ELSE f[y]]
 LedgerFails(st, ev) ==
     LET p == <<ev.key, ev.z>>
+        q == <<ev.key, ev.z, ev.rep>>
         nid == Norm(ev.r)
-        d == IF ev.mode = "det" /\ p \in DOMAIN st.sigOf /\ st.sigOf[p] # <<Norm(ev.r), Norm(ev.s)>>
-             THEN <<Bad("not-deterministic", "", st.sigOf[p])>> ELSE <<>>
+        sg == <<Norm(ev.r), Norm(ev.s)>>
+        same == IF ev.mode # "det" THEN <<>>                    \* same text (or two canonical ones): must agree
+                ELSE IF CanonicalRep(ev.rep) /\ p \in DOMAIN st.sigOf /\ st.sigOf[p] # sg THEN <<Bad("not-deterministic", "", st.sigOf[p])>>
+                ELSE IF ~CanonicalRep(ev.rep) /\ q \in DOMAIN st.altOf /\ st.altOf[q] # sg THEN <<Bad("not-deterministic", "", st.altOf[q])>>
+                ELSE <<>>
+        cross == IF ev.mode # "det" \/ same # <<>> THEN <<>>     \* other texts of the same digest: must agree as well
+                 ELSE IF ~CanonicalRep(ev.rep) /\ p \in DOMAIN st.sigOf /\ st.sigOf[p] # sg
+                      THEN <<Bad("not-deterministic", "sign-nonce-depends-on-hex-case", st.sigOf[p])>>
+                 ELSE IF \E a \in DOMAIN st.altOf : a[1] = ev.key /\ a[2] = ev.z /\ a[3] # ev.rep /\ st.altOf[a] # sg
+                      THEN <<Bad("not-deterministic", "sign-nonce-depends-on-hex-case", <<>>)>>
+                 ELSE <<>>
         u == IF ev.mode # "explicit" /\ nid \in DOMAIN st.users /\ st.users[nid] \ {p} # {}
              THEN <<Bad("nonce-shared", "", <<>>)>> ELSE <<>>
-    IN d \o u
+    IN same \o cross \o u
 LedgerNext(st, ev) ==
     LET p == <<ev.key, ev.z>>
+        q == <<ev.key, ev.z, ev.rep>>
         nid == Norm(ev.r)
-    IN [sigOf |-> IF ev.mode = "det" /\ p \notin DOMAIN st.sigOf THEN Extend(st.sigOf, p, <<Norm(ev.r), Norm(ev.s)>>) ELSE st.sigOf,
+        sg == <<Norm(ev.r), Norm(ev.s)>>
+    IN [sigOf |-> IF ev.mode = "det" /\ CanonicalRep(ev.rep) /\ p \notin DOMAIN st.sigOf THEN Extend(st.sigOf, p, sg) ELSE st.sigOf,
+        altOf |-> IF ev.mode = "det" /\ ~CanonicalRep(ev.rep) /\ q \notin DOMAIN st.altOf THEN Extend(st.altOf, q, sg) ELSE st.altOf,
         users |-> IF ev.mode = "explicit" THEN st.users
                   ELSE Extend(st.users, nid, (IF nid \in DOMAIN st.users THEN st.users[nid] ELSE {}) \cup {p})]
 
